@@ -308,7 +308,7 @@ func (n *Net) RoundTrip(req *http.Request) (*http.Response, error) {
 		return nil, connError(x.Fault.Param, req.URL.Host)
 	case FPanic:
 		x.Rec.Returned, x.Rec.TReturn, x.Rec.Outcome = true, time.Now(), "panic"
-		panic(n.PanicValue)
+		panic(injectedPanicValue(n.PanicValue, x.Fault.Param))
 	case FRedirect:
 		code := x.Fault.Param % 1000 // 301/302/303 turn a POST into a GET, 307/308 repeat it with its body; +1000: the target redirects again, for ever
 		if code == 0 {
